@@ -17,5 +17,5 @@ for k,v in r.items():
         if t not in s: s.append(t)
 print(' '.join(s))"); do lake build $t 2>&1 | tail -3; done)
 echo "[setup] harness"
-bash harness/gen_gomod.sh && (cd harness && go test -c -tags verif -o ../.cache/dymh.test . 2>&1 | tail -5)
+bash harness/gen_gomod.sh && (cd harness && go test -c -tags verif -o ../.cache/dymh-setup.test . && rm -f ../.cache/dymh-setup.test 2>&1 | tail -5)
 echo "[setup] done"
